@@ -4,7 +4,7 @@
 use super::Stdio;
 use std::{
     io,
-    os::fd::{AsRawFd, FromRawFd, OwnedFd},
+    os::fd::{FromRawFd, OwnedFd},
 };
 
 pub(super) struct State {
@@ -105,14 +105,18 @@ pub(super) fn setup_io(cmd: &mut std::process::Command) -> io::Result<State> {
                 ours = std::os::fd::OwnedFd::from_raw_fd(fds[0]);
                 theirs = std::os::fd::OwnedFd::from_raw_fd(fds[1]);
 
+                use std::os::fd::AsRawFd;
                 set_cloexec(ours.as_raw_fd())?;
                 set_cloexec(theirs.as_raw_fd())?;
             }
         }
-
-        cmd.stderr(Stdio::from_raw_fd(theirs.as_raw_fd()))
-            .stdout(Stdio::from_raw_fd(theirs.as_raw_fd()));
     }
+
+    // Each `Stdio` owns, and on drop closes, the descriptor it is given, and so does `theirs`: hand
+    // out duplicates rather than making three owners of one descriptor (the extra closes could hit
+    // a descriptor another thread had just opened).
+    cmd.stderr(Stdio::from(theirs.try_clone()?))
+        .stdout(Stdio::from(theirs.try_clone()?));
 
     Ok(State { ours, theirs })
 }
